@@ -7,3 +7,4 @@ import Rp2.Props.C10
 #print axioms Rp2.C10.model_yearly_lines_of_window
 #print axioms Rp2.C10.model_yearly_lines_depend_on_from_year_only
 #print axioms Rp2.C10.source_iterator_yields_the_reported_tables
+#print axioms Rp2.C10.source_iterator_without_filters_shows_everything
